@@ -266,6 +266,9 @@ def witnesses(tier, seed):
         for t in T3:
             for how in ('pointer', 'pointer_colmajor', 'array', 'array_colmajor', 'vector', 'vector_colmajor', 'initlist'):
                 W.append(mk_ctor(t, dims, how))
+    # complex element types (explicit (re,im) references)
+    import cplx_common
+    W += cplx_common.cplx_witnesses('map', tier)
     return group_sort(W)
 
 
